@@ -959,7 +959,16 @@ class Engine:
             fv = E.temps.get(x.n['fe'], TOP)
             if fv is TOP:
                 try:
-                    fv = self.value_of(E, x.fn.x(x.n['fe']).strip())
+                    # (*fp)(...) and (**fp)(...) call what fp points to: dereferencing a function pointer gives the function again
+                    fx = x.fn.x(x.n['fe'])
+                    while fx is not None:
+                        fv = self.value_of(E, fx)
+                        if fv is not TOP:
+                            break
+                        if fx.args and (fx.k in ('paren',) or (fx.k == 'cast' and fx.op != 'LValueToRValue') or (fx.k == 'un' and fx.op == '*')):
+                            fx = fx.args[0]
+                        else:
+                            break
                 except Exception:
                     fv = TOP
             if fv is not TOP and len(fv) == 1:
